@@ -10,6 +10,8 @@ func init() {
 		Quick:      all("./internal/impl", "./proto"),
 		Thorough:   allAndLegacy("./internal/impl", "./proto"),
 		Run: func(c *Ctx) {
+			c.ruleMergeClass("R-MERGE-CLASS", 60)
+			c.ruleSizeCache("R-SIZECACHE")
 			c.ruleCoderRow("R-CODER-ROW", 100)
 			c.ruleCoderSelect("R-CODER-SELECT", 60)
 			c.ruleKindContext("R-KIND-CONTEXT", []string{"proto", "internal/impl"}, 100)
